@@ -18,55 +18,55 @@ SAMPLING = "sampling, not enumeration; the reference model covers the value/oper
 
 CHECKS = {
  "C01": ("exploration", "9.1",
-   "seeded histories of driver calls (CRUD, bulk, upsert, find-one-and-modify, index and drop calls, sleeps, clean restarts on the simulated disk) executed against the instrumented current tree with the expiry goroutine alive; every call's result and the full contents/index definitions of every collection are compared with an independent sequential reference model after every call",
+   "seeded histories of driver calls (CRUD, bulk, upsert, find-one-and-modify, index and drop calls, sleeps, clean restarts on the simulated disk) executed against the instrumented current tree with the expiry goroutine alive; every call's result and the full contents/index definitions of every collection are compared with an independent sequential reference model after every call and after every restart",
    SAMPLING + "fault-free configuration (one client), so the schedule dimension is the client vs. the engine's expiry goroutine only",
    "deterministic simulation: seeded call histories vs. executable reference model, checked call by call"),
  "C02": ("exploration", "9.2",
-   "histories biased towards writes that fail part-way (k-th matched document, k-th batch item, index builds over conflicting data, injected store failures before/after persisting); after a failing single-item call the byte dump of every namespace incl. change log and index contents must equal the dump before; batches must equal the model's 'exactly the successful items' and grow the change log by exactly that many events",
+   "histories biased towards writes that fail part-way (k-th matched document, k-th batch item, index builds over conflicting data, injected store failures before/after persisting); after a failing single-item call the byte dump of every namespace incl. change log and index contents must equal the dump before; batches must equal the model's 'exactly the successful items' and grow the change log by exactly that many events; 15 % of the update calls use operators outside the model's domain ($push modifiers, $pullAll, $bit, positional operators with array filters, numeric index paths) and are judged by the before/after dump alone",
    SAMPLING + "store faults are injected at the Store seam",
    "deterministic simulation: generated failing writes + store fault injection, before/after byte dumps and reference model"),
  "C03": ("exploration", "9.3",
-   "2-4 client tasks running single calls, session transactions (commit / abort / end / failing store) and structural churn (index builds and drops, collection drops) under the seeded scheduler, plus a snapshot task that takes Engine.Catalog() pointers, read-only transactions and un-iterated cursors at seeded moments; oracles: the commit-order replay of C04 (an aborted or failed transaction leaves no trace, a committed one appears at once) and byte dumps of every snapshot and of every committed catalog, which must stay identical through the old handle whatever commits later; cursors must return the documents of one committed state of their creation window",
+   "2-4 client tasks running single calls, session transactions (commit / abort / end / failing store) and structural churn (index builds and drops, collection drops, documents with embedded documents and arrays of documents updated through array positions) under the seeded scheduler (18 % of the runs with statement-level scheduling points in the engine / session / stream / transaction code), plus a snapshot task that takes Engine.Catalog() pointers, read-only transactions and un-iterated cursors at seeded moments; oracles: the commit-order replay of C04 (an aborted or failed transaction leaves no trace, a committed one appears at once) and byte dumps of every snapshot and of every committed catalog, which must stay identical through the old handle whatever commits later; cursors must return the documents of one committed state of their creation window",
    SAMPLING + "snapshots are re-dumped at seeded recheck points and at the end of the run, not after every step",
    "deterministic simulation: PRNG scheduler + store fault injection, snapshot byte-dump monitor and commit-order reference model"),
  "C04": ("exploration", "9.4",
-   "2-4 client tasks preempted at every lock, blocking select and store call over a tiny key space: tagged blind writes, $inc counters, find-one-and-update, read-modify-write inside session transactions, two-document transfers, multi-updates, reads, failing writes; oracle 1: the commit history recorded at the store seam is the serial order - the model applies the committing calls in that order and must reproduce every returned result and every committed catalog, non-committing calls must equal the model on a state of their invoke/return window; oracle 2: porcupine on the invoke/return history of short runs (Illegal = violation, Unknown = inconclusive, never reported); oracle 3: conservation of transfer sums and counter = successful increments",
+   "2-4 client tasks preempted at every lock, blocking select and store call over a tiny key space: tagged blind writes, $inc counters, find-one-and-update, read-modify-write inside session transactions, two-document transfers, multi-updates, reads, failing writes; oracle 1: the commit history recorded at the store seam is the serial order - the model applies the committing calls in that order and must reproduce every returned result and every committed catalog, non-committing calls must equal the model on a state of their invoke/return window; oracle 2: porcupine on the invoke/return history of short runs (Illegal = violation, Unknown = inconclusive, never reported); oracle 3: conservation of transfer sums and counter = successful increments; 18 % of the runs use statement-level scheduling points (every statement of the engine / session / stream / transaction / semaphore code is a preemption point); 8 % of the runs let 2-3 goroutines increment counters inside one shared session transaction (k-th increment returns k, committed counter = successful increments); two tasks inside Store at once are reported as two writers",
    SAMPLING + "porcupine is applied to histories of at most 24 operations",
-   "deterministic simulation: PRNG scheduler (random / PCT / sticky / non-preemptive), store latency and error injection, commit-order replay + porcupine linearizability check"),
+   "deterministic simulation: PRNG scheduler (random / PCT / sticky / non-preemptive) down to statement granularity, store latency and error injection, commit-order replay + porcupine linearizability check"),
  "C05": ("fault_enumeration", "9.5",
-   "engine on the real FileStore over the simulated disk (volatile vs durable state, numbered fault points at every open/write/sync/rename/dir-sync/remove); for each sampled history of 1-8 commits the sweep places one fault at every commit x every fault point x {kill before effect, kill after effect} x power-loss outcomes (subsets of pending directory operations, torn/zeroed/old data blocks) x every applicable errno incl. short writes; after a kill a fresh engine must load, and the loaded dump must be the last acknowledged state or the state of the commit in flight, never garbage or a mixture; after an error the call fails, the visible state is the old one, the next commit succeeds",
+   "engine on the real FileStore over the simulated disk (volatile vs durable state, numbered fault points at every open/write/sync/rename/dir-sync/remove); for each sampled history of 1-8 commits the sweep places one fault at every commit x every fault point x {kill before effect, kill after effect} x power-loss outcomes (subsets of pending directory operations, torn/zeroed/old data blocks) x every applicable errno incl. short writes; after a kill a fresh engine must load, and the loaded dump must be the last acknowledged state or the state of the commit in flight, never garbage or a mixture; after an error the call fails, the visible state is the old one, and the next write must reach its commit (a later call that runs into the writer-slot timeout is a violation)",
    "fault points are enumerated exhaustively per sampled history (thorough: half of the budget; quick: a third), histories themselves are sampled; power-loss outcomes are enumerated up to 6 pending items and sampled beyond; the simulated disk follows the POSIX-style model of DESIGN.md 3.4",
    "deterministic simulation: simulated disk with crash / power-loss / errno injection, enumerated per history, old-or-new oracle over the recorded commit history"),
  "C06": ("exploration", "9.6",
-   "histories over the rich value pool (all BSON types of DESIGN.md section 8, all index option combinations) on the file store with clean restarts at seeded points: close the engine, open a new one on the same simulated disk with process-fresh globals, continue against the same model; oracle: byte dump of every namespace (documents in natural order, index name/key/unique/partial/expiry, index order, whole change log) before close vs. after open, plus enforcement probes per unique index on both sides",
+   "histories over the rich value pool (all BSON types of DESIGN.md section 8, all index option combinations) on the file store with clean restarts at seeded points: close the engine, open a new one on the same simulated disk with process-fresh globals, continue against the same model; oracle: byte dump of every namespace (documents in natural order, index name/key/unique/partial/expiry, index order, whole change log) before close vs. after open, plus enforcement probes per unique index (incl. _id) on both sides; half of the runs use second-scale retention ages with sleeps so that commits trim the change log before a restart; the reopened catalog is also compared with the reference model",
    SAMPLING + "index order is compared modulo ties",
    "deterministic simulation: restart as a generated operation over the simulated disk, before/after byte dumps and reference model"),
  "C07": ("exploration", "9.7",
-   "collision-rich histories under unique / unique-partial / unique-multikey / unique-compound indexes, index builds over existing data, key shifts, restarts; invariant on every committed catalog: no two documents share a key tuple under a unique index (independent key extractor); exactness: a call is rejected for uniqueness iff the model's final state would contain such a pair",
+   "collision-rich histories under unique / unique-partial / unique-multikey / unique-compound indexes, index builds over existing data, key shifts, restarts; invariant on every committed catalog: no two documents share a key tuple under a unique index (independent key extractor); _id is unique whether or not the catalog still lists its index; exactness: a call is rejected for uniqueness iff the model's final state would contain such a pair; disagreements owned by other properties re-base the model and the run continues",
    SAMPLING + "index keys on top-level fields, embedded-document paths and arrays of scalars",
    "deterministic simulation: per-commit invariant monitor + reference model exactness"),
  "C08": ("exploration", "9.8",
-   "histories of writes, failed writes, drops, restarts and injected store failures with randomised retention settings while simulated time advances by fractions of a second up to days and the wall clock steps forwards/backwards; at every commit S(k-1)->S(k) from the store seam: the log is the earlier log minus a prefix plus appended events, ids strictly increasing and never reused in the run, replaying the appended events onto S(k-1) reproduces S(k), update descriptions applied to the previous version give the new version up to field order, no event without change, retention safety (min size / min age) and progress (max size / max age) with a 1.5 s tolerance around age boundaries",
+   "histories of writes, failed writes, drops, restarts and injected store failures with randomised retention settings while simulated time advances by fractions of a second up to days and the wall clock steps forwards/backwards; at every commit S(k-1)->S(k) from the store seam: the log is the earlier log minus a prefix plus appended events, ids strictly increasing and never reused in the run, replaying the appended events onto S(k-1) reproduces S(k), update descriptions applied to the previous version give the new version up to field order, no event without change, retention safety (min size / min age) and progress (max size / max age) with a 1.5 s tolerance around age boundaries; 25 % of the update calls combine 1-3 operators outside the reference model's domain ($push with $position/$slice/$sort, $pullAll, $bit, $[] and $[id] with array filters, numeric index paths, $rename into embedded documents), judged by the replay and update-description oracles alone",
    SAMPLING + "age clauses are evaluated with the log's own monotonic notion of time when the wall clock was stepped backwards; documented option defaults (100/1000, 5m/1h) are assumed when a plan leaves them unset",
    "deterministic simulation: simulated clock + per-commit replay oracle over the recorded commit history"),
  "C09": ("exploration", "9.9",
-   "1-2 writer tasks (tagged writes over 2 databases x 2 collections, drops, database drops) and 1-3 consumer tasks (client / database / collection scope; start now, resume-after, start-after, start-at-time; Next with simulated deadlines, TryNext, Close, re-Watch) under the seeded scheduler with small retention settings; oracle: the event log reconstructed from the commit history - each stream must deliver a contiguous run of its scope-filtered log, each event once, in order, from an admissible start position, end with the drop event + invalidate where the statement says so, report a lost position when retention overtook it, and a Next that waited out its deadline although a matching event was committed strictly earlier is a lost wake-up; at the end every open stream must have delivered everything it was owed",
+   "1-2 writer tasks (tagged writes over 2 databases x 2 collections, drops, database drops) and 1-3 consumer tasks (client / database / collection scope; start now, resume-after, start-after, start-at-time; Next with simulated deadlines, TryNext, Close, re-Watch) under the seeded scheduler with small retention settings; oracle: the event log reconstructed from the commit history - each stream must deliver a contiguous run of its scope-filtered log, each event once, in order, from an admissible start position, end with the drop event + invalidate where the statement says so, report a lost position when retention overtook it, and a Next that waited out its deadline although a matching event was committed strictly earlier is a lost wake-up; at the end every open stream must have delivered everything it was owed; events are identified by their full bytes, two delivered events may not share a resume token, a lost-position error is only accepted if retention really removed an event at or after the stream's start position; 6 % of the runs are the scenario 'stream opened on an empty log, the first trimming commit fails in the store'; 18 % of the runs use statement-level scheduling points",
    SAMPLING + "the scheduling point between releasing the stream lock and waiting on the signal is an instrumented yield",
    "deterministic simulation: PRNG scheduler + simulated clock, delivery oracle over the recorded commit history, bounded-liveness probe"),
  "C15": ("exploration", "9.15",
-   "histories of CRUD and index-management calls incl. partial-filter transitions and multikey arity changes, failed calls, restarts; invariant on every committed catalog: each index lists exactly the documents matching its partial filter, once, in key order, and equals an index rebuilt from scratch; index management (idempotent create, conflicting create fails, _id index never dropped) compared with the model",
+   "histories of CRUD and index-management calls incl. partial-filter transitions and multikey arity changes, failed calls, restarts; invariant on every committed catalog: each index lists exactly the documents matching its partial filter, once, in key order, and equals an index rebuilt from scratch; index management (idempotent create, create conflicting by key or by option - partial filter, unique flag, expiry - fails, _id index never dropped) compared with the model, also after every restart",
    SAMPLING + "the rebuilt-from-scratch comparison uses lungo's own index builder on the same documents",
    "deterministic simulation: per-commit invariant monitor + reference model for index management"),
  "C16": ("exploration", "9.16",
-   "seeded search over interleavings (locks, blocking selects, store calls) and single faults of 2-4 actors mixing engine-, session- and driver-level calls, shared sessions, streams and shutdown; monitors: at most one writer, no panic, no lock cycle / stall, writer slot free again (probe write < 1 simulated second after faults stop), closed error after shutdown, no background goroutine left",
-   "sampling, not enumeration; interleavings at lock/select/store granularity; token timeouts are not judged while a shared session may legitimately hold the slot or while the scheduler lets time pass freely (the end-of-run probe still decides leaks)",
+   "seeded search over interleavings (locks, blocking selects, store calls; in 18 % of the runs every statement of the engine / session / stream / semaphore code) and single faults of 2-4 actors mixing engine-, session- and driver-level calls, shared sessions, streams and shutdown; monitors: at most one writer (held write transactions and tasks inside Store), no panic, no lock cycle / stall, writer slot free again (probe write < 1 simulated second after faults stop), closed error after shutdown, no background goroutine left",
+   "sampling, not enumeration; interleavings at lock/select/store granularity, at statement granularity in a fraction of the runs; token timeouts are not judged while a shared session may legitimately hold the slot or while the scheduler lets time pass freely (the end-of-run probe still decides leaks)",
    "deterministic simulation: PRNG scheduler over instrumented locks/selects + fault injection + bounded liveness probe"),
  "C18": ("exploration", "9.18",
    "1-3 uploader tasks, each walking one file through a seeded life cycle on a bucket object shared with the others (untracked or tracked: open, fragmented writes incl. empty writes, suspend / resume, close, claim, abort, delete + cleanup, UploadFromStream from a simulated reader with short reads / EOF-with-data / injected error, DownloadToStream into a simulated writer that may fail), reader tasks running read/skip/seek scripts on a file uploaded beforehand, a janitor task running Cleanup, all interleaved by the seeded scheduler with one injected store failure or latency in some runs; sizes: empty, around multiples of the chunk size, and (1 run in 120 quick, 1 in 25 thorough) around the 16 MiB upload buffer with 1-5 MiB chunks; oracle: content function + bytes.Reader compared call by call (bytes, positions, EOF and error behaviour), file record length / chunk size exact, chunks numbered 0..n-1 with all but the last full and equal to the content, nothing left after Abort, Delete (+Cleanup) or a reader failure; after an injected store failure the upload may fail but an Abort must then leave nothing",
    "sampling, not enumeration; a ClaimUpload or UploadFromStream interrupted by an injected store failure is not judged further (the statement does not cover it); Cleanup runs with an age no upload of the run reaches, so it only collects files marked deleted",
    "deterministic simulation: PRNG scheduler over the shared bucket, simulated reader / writer / store faults, in-memory reference reader and stored-document invariants"),
  "C19": ("exploration", "9.19",
-   "histories of writes and TTL index management (several TTL indexes per collection, zero and large expiry, date / non-date / array values, partial filters) while simulated time advances and the engine's real expiry loop runs on the simulated ticker; every commit made by the loop (or by a direct Transaction.Expire) is judged against the model: it removes every document a TTL index makes expired at that moment, nothing else, logs a delete event for each and leaves other data and index definitions alone; at the end, after two more intervals, nothing that was clearly expired may be left; a failing pass must not stop the loop",
+   "histories of writes and TTL index management (several TTL indexes per collection, zero and large expiry, date / non-date / array values, partial filters) while simulated time advances and the engine's real expiry loop runs on the simulated ticker; every commit made by the loop (or by a direct Transaction.Expire) is judged against the model: it removes every document a TTL index makes expired at that moment, nothing else, logs a delete event for each and leaves other data and index definitions alone; at the end, after two more intervals, nothing that was clearly expired may be left; a failing pass must not stop the loop; file-backed runs close and reopen the engine, after which the TTL definitions must still be the model's; expiry on a compound key must be refused",
    SAMPLING + "documents within 2 ms of the expiry boundary may or may not be removed by a pass",
    "deterministic simulation: simulated clock drives the real expiry goroutine, per-commit oracle against the reference model"),
 }
@@ -91,7 +91,7 @@ def main():
         "setup_cmd": "./verif setup",
         "hooks": {
             "guard": "none",
-            "enable": "no hooks are committed to /repo: every check copies /repo's working tree to a scratch directory and instruments the copy (tools/instrument: sync/os/time imports -> verifsim shims, yields at blocking selects, seeded map ranges)",
+            "enable": "no hooks are committed to /repo: every check copies /repo's working tree to a scratch directory and instruments the copy (tools/instrument: sync/os/time imports -> verifsim shims, yields at blocking selects, statement-level scheduling points in the protocol packages, seeded map ranges)",
             "baseline_off_cmd": "cd /repo && go test -mod=mod -json -vet=off -count=1 -timeout 25m ./...",
             "source_commits": [],
             "add_only": True,
